@@ -37,7 +37,7 @@ META = {
             "= the group it belongs to has at least two executions to compare",
 }
 
-ON = ["determ"]
+ON = ["determ", "callgraph"]
 
 
 def _corrupt(t: dict) -> bool:
